@@ -254,10 +254,13 @@ fn run(case: &Value) -> Obs {
         let conserved = has_text_replace || !sentinel_ok || conservative(&body, &out, &inserts, &replaces);
         if let Some(k) = r.err_at {
             if k >= chunks.len() {
-                // the chain failed inside end(): FilterBodyAction::end returns nothing, whatever the stages held is gone
+                // The chain failed inside end().  Legitimate only when the body ends with an incomplete UTF-8
+                // sequence (the pending tail of an html stage met text emitted at end by an earlier text stage);
+                // the held bytes must still come out (repaired by 86b76d7; a loss or duplication is a failure).
+                let truncated_tail = matches!(std::str::from_utf8(&body), Err(e) if e.error_len().is_none());
                 if !conserved {
-                    note((format!("{which}: the chain failed during end() and the bytes held by the stages are lost"), "error-in-end-loses-held-bytes"), &mut fail);
-                } else if !has_text_replace {
+                    note((format!("{which}: the chain failed during end() and the bytes held by the stages are lost or duplicated"), "error-in-end-loses-held-bytes"), &mut fail);
+                } else if !has_text_replace && !(truncated_tail && has_html) {
                     note((format!("{which}: the chain failed during end()"), "error-state-unexpected"), &mut fail);
                 }
                 continue;
